@@ -10,18 +10,18 @@ import (
 	"sync"
 )
 
-type verifLockedBuffer struct {
+type verifPauseBuffer struct {
 	mu  sync.Mutex
 	buf bytes.Buffer
 }
 
-func (b *verifLockedBuffer) Write(p []byte) (int, error) {
+func (b *verifPauseBuffer) Write(p []byte) (int, error) {
 	b.mu.Lock()
 	defer b.mu.Unlock()
 	return b.buf.Write(p)
 }
 
-func (b *verifLockedBuffer) snapshot() []byte {
+func (b *verifPauseBuffer) snapshot() []byte {
 	b.mu.Lock()
 	defer b.mu.Unlock()
 	return append([]byte(nil), b.buf.Bytes()...)
@@ -30,12 +30,12 @@ func (b *verifLockedBuffer) snapshot() []byte {
 // VerifPauseTransfer is a real trzszTransfer (newTransfer) writing into a memory buffer.
 type VerifPauseTransfer struct {
 	t *trzszTransfer
-	w *verifLockedBuffer
+	w *verifPauseBuffer
 }
 
 // VerifNewPauseTransfer builds a transfer with the given negotiated protocol and timeout (seconds).
 func VerifNewPauseTransfer(protocol int, timeout int) *VerifPauseTransfer {
-	w := &verifLockedBuffer{}
+	w := &verifPauseBuffer{}
 	t := newTransfer(w, nil, false, nil)
 	t.transferConfig.Protocol = protocol
 	t.transferConfig.Timeout = timeout
